@@ -820,6 +820,9 @@ func (d *drv) random(t int, rnd *rand.Rand) {
 	d.rnd = rnd
 	d.start(t, in)
 	steps := 15 + rnd.Intn(60)
+	if os.Getenv("VERIF_CT_BIG") == "1" {
+		steps *= 4
+	}
 	bias := rnd.Intn(3) // 0: scanner-heavy, 1: balanced, 2: environment-heavy
 	for i := 0; i < steps; i++ {
 		c := rnd.Intn(20)
